@@ -8,7 +8,10 @@ Record obs := {
   o_outs : list outcome;     (* the outcome calls a testtools.TestResult received from the run *)
   o_ok : bool }.             (* its wasSuccessful() afterwards *)
 
-Definition wf (i : input) : bool := wf_prog (i_prog i).
+(* a handler the user inserts reports some outcome other than success for its exception *)
+Definition wf (i : input) : bool :=
+  wf_prog (i_prog i)
+  && forallb (fun co => negb (outcome_eqb (snd co) OSuccess)) (p_handlers (i_prog i)).
 
 Definition hs (i : input) : list handler := handlers (i_prog i).
 (* the exception stands for a failure or an error *)
@@ -44,8 +47,8 @@ Definition Spec (i : input) (o : obs) : Prop :=
       unsuccessful k = true /\ o_ok o = false).
 
 (* Known finding F2 ("the last exception wins"): every exception caught is claimed by a handler,
-   one of them stands for a failure or error, and the last one stands for a skip, an expected
-   failure or (through an inserted handler) a success. *)
+   one of them stands for a failure or error, and the last one stands for a skip or an expected
+   failure (directly or through an inserted handler). *)
 Definition finding_F2 (i : input) : bool :=
   existsb (is_failure_or_error (hs i)) (raised (i_prog i))
   && forallb (claims (hs i)) (raised (i_prog i))
